@@ -130,6 +130,13 @@ func chainStatus(s int) feedstypes.SignalPriceStatus {
 }
 
 // devBP = floor(|new-old|*10000/old) computed exactly; old==0 => "infinite" unless equal.
+func minI64(a, b int64) int64 {
+	if a < b {
+		return a
+	}
+	return b
+}
+
 func devBP(oldP, newP uint64) (*big.Int, bool) {
 	if oldP == 0 {
 		return nil, newP != 0
@@ -233,8 +240,13 @@ func decideCase(run *sim.Run, id int) {
 	// the daemon
 	fq := &feedQ{w: w, qs: feedskeeper.NewQueryServer(w.App.FeedsKeeper)}
 	bs := &bothanStub{sig: map[string]*sigState{}}
+	huge := map[string]bool{}
 	for _, s := range allSignals {
 		bs.sig[s] = &sigState{status: stAvail, price: uint64(rng.Range(1_000, 5_000_000)), hold: rng.Range(5, 60)}
+		if rng.Chance(1, 3) { // a price near the top of the uint64 range (1e16 .. 9e18): the basis-point arithmetic must not wrap
+			huge[s] = true
+			bs.sig[s].price = uint64(rng.Range(1, 900)) * 10_000_000_000_000_000
+		}
 	}
 	submitCh := make(chan submitter.SignalPriceSubmission, 64)
 	pending := &sync.Map{}
@@ -393,9 +405,15 @@ func decideCase(run *sim.Run, id int) {
 				s.status = stAvail
 				// move relative to the last accepted price: exactly at, one bp below, one bp above the threshold
 				k := feed.DeviationBasisPoint + int64(rng.Range(-1, 1))
+				if huge[sid] {
+					// clearly above the threshold (the daemon computes in float64: the exact boundary is not judged
+					// at this magnitude), capped so that the new price stays below 2^64
+					k = minI64(feed.DeviationBasisPoint*int64(rng.Range(2, 3)), 9000)
+					run.Count("A:huge-price-moved-beyond-deviation", 1)
+				}
 				delta := new(big.Int).Mul(new(big.Int).SetUint64(lp.Price), big.NewInt(k))
 				delta.Add(delta, big.NewInt(9999)).Quo(delta, big.NewInt(10000)) // ceil => dev >= k
-				if rng.Bool() && lp.Price > delta.Uint64() {
+				if (rng.Bool() || (huge[sid] && lp.Price > 5_000_000_000_000_000_000)) && lp.Price > delta.Uint64() {
 					s.price = lp.Price - delta.Uint64()
 				} else {
 					s.price = lp.Price + delta.Uint64()
